@@ -24,7 +24,7 @@ func mustWKT(s string) geom.Geometry {
 func pairCase(l *lgen, a, b geom.Geometry, mapKind int) Case {
 	c := Case{"wa": a.AsText(), "wb": b.AsText(), "N": l.N}
 	if l.r.Intn(3) == 0 {
-		c["hist"] = 1 + l.r.Intn(7) // the operands reach the operation through another library operation first
+		c["hist"] = 1 + l.r.Intn(9) // the operands reach the operation through another library operation first
 	}
 	switch mapKind {
 	case 1:
@@ -102,13 +102,34 @@ func withHistory(g geom.Geometry, k int) geom.Geometry {
 	case 4:
 		return g.TransformXY(func(p geom.XY) geom.XY { return p })
 	case 5:
-		return geom.NewGeometryCollection([]geom.Geometry{g, geom.Point{}.AsGeometry()}).GeometryN(0)
+		// (the partner has g's coordinate type: the constructor reduces mixed members to their common subset)
+		return geom.NewGeometryCollection([]geom.Geometry{g, geom.NewEmptyPoint(g.CoordinatesType()).AsGeometry()}).GeometryN(0)
 	case 6:
 		return respare(g)
 	case 7:
 		if r, err := geom.UnmarshalWKT(g.AsText(), geom.NoValidate{}); err == nil {
 			return r
 		}
+	case 9:
+		// the empty collection in the nil-pointer representation that set operations on empty operands and empty
+		// envelopes hand out (the zero Geometry)
+		if g.IsGeometryCollection() && g.MustAsGeometryCollection().NumGeometries() == 0 && g.CoordinatesType() == geom.DimXY {
+			return geom.Geometry{}
+		}
+		return withHistory(g, 6)
+	case 8:
+		// some zero ordinates become -0 (what SnapToGrid, a subtraction or a sign flip leaves behind): the same number
+		k := 0
+		return g.TransformXY(func(p geom.XY) geom.XY {
+			k++
+			if p.X == 0 && k%2 == 0 {
+				p.X = math.Copysign(0, -1)
+			}
+			if p.Y == 0 && k%3 == 0 {
+				p.Y = math.Copysign(0, -1)
+			}
+			return p
+		})
 	}
 	return g
 }
@@ -240,6 +261,18 @@ func relateGen(r *rand.Rand, n int, tier string, emit func(Case)) {
 		} else {
 			a, b = l.any(5), l.any(5)
 		}
+		shared := false
+		if i%40 == 17 {
+			// a line and one of its prefixes (valid lines on their own), later built as two views of one sequence
+			la := l.lineString()
+			sq := la.Coordinates()
+			for k := sq.Length() - 1; k >= 2; k-- {
+				if pre := geom.NewLineString(sq.Slice(0, k)); pre.Validate() == nil {
+					a, b, shared = la.AsGeometry(), geom.NewLineString(seqOf(xysOf(pre.Coordinates()))).AsGeometry(), true
+					break
+				}
+			}
+		}
 		mk := 0
 		switch r.Intn(6) {
 		case 0, 1:
@@ -249,8 +282,21 @@ func relateGen(r *rand.Rand, n int, tier string, emit func(Case)) {
 		case 3:
 			mk = 3
 		}
-		emit(pairCase(l, a, b, mk))
+		pc := pairCase(l, a, b, mk)
+		if shared {
+			pc["shared"] = true
+			delete(pc, "hist")
+		}
+		emit(pc)
 	}
+}
+
+func xysOf(s geom.Sequence) []geom.XY {
+	var out []geom.XY
+	for i := 0; i < s.Length(); i++ {
+		out = append(out, s.GetXY(i))
+	}
+	return out
 }
 
 var predFns = []func(a, b geom.Geometry) (bool, error){
@@ -279,6 +325,13 @@ func relateExec(c Case) Event {
 	a0, b0 := mustWKT(c.str("wa")), mustWKT(c.str("wb"))
 	f, gp := mapOf(c)
 	a, b := imageOf(a0, f), imageOf(b0, f)
+	if c.boolean("shared") && a.IsLineString() && b.IsLineString() {
+		// b is a prefix of a: both as views (Sequence.Slice from 0) of one shared sequence
+		sa := a.MustAsLineString().Coordinates()
+		if nb := b.MustAsLineString().Coordinates().Length(); nb <= sa.Length() {
+			a, b = geom.NewLineString(sa.Slice(0, sa.Length())).AsGeometry(), geom.NewLineString(sa.Slice(0, nb)).AsGeometry()
+		}
+	}
 	ev := Event{"kind": "pair", "a": parts(a0), "b": parts(b0), "gp": gp, "err": "", "m": "", "p": "", "res": false}
 	ab, err := geom.Relate(a, b)
 	if err != nil {
